@@ -4,6 +4,10 @@ Ops (floats = decimal value of the IEEE-754 bit pattern, N = None), see lean/SmV
     c2d / c2dci / j2d     the closed forms of distance_utils on attainable ratios a/b
     res ani|jac|ci        the result classes on arbitrary (also illegal) field values -- compared EXACTLY
     mh cont|max|avg|jac   the MinHash wrappers on real sketches of given sizes / overlap
+    sia                   MinHash.size_is_accurate: which scipy.stats.binom calls, with which arguments, probability, answer
+    pyvar                 distance_utils.var_n_mutated
+    nat ...               the NATIVE twin src/core/src/ani_utils.rs, executed by rust-harness (`smharness ani`) next to the
+                          Python twin on the same inputs (the adapter forwards these ops to the harness binary)
 
 Inputs only the real code can produce (brentq's interval, size_is_accurate(), contained_by()) are
 written as `?` by the generator and filled in by a helper process running the adapter.
@@ -25,6 +29,7 @@ import common  # noqa: E402
 MODULE = "ani"
 ADAPTER = "ani_impl.py"
 REL_TOL = 1e-12
+CI_TOL = 1e-3        # native vs Python confidence bounds (absolute; measured worst case 2e-4, typical < 1e-8)
 
 
 def bits(x):
@@ -60,7 +65,7 @@ def _close(a, b):
         return False
     x, y = fl(a), fl(b)
     if x != x or y != y:
-        return False
+        return x != x and y != y        # NaN: sign / payload bits are not significant (Rust and C differ in the sign of 0 * inf)
     return abs(x - y) <= REL_TOL * max(abs(x), abs(y))
 
 
@@ -77,7 +82,7 @@ def same(a, b):
             return False
         if v1 is None:
             continue
-        if k1 in ("px", "jx", "acc"):
+        if k1 in ("px", "jx", "acc", "calls", "n"):
             if v1 != v2:
                 return False
         elif not all(_close(x, y) for x, y in zip(v1.split(","), v2.split(","))) or v1.count(",") != v2.count(","):
@@ -139,6 +144,17 @@ def fill(lines):
                 raise common.ToolFailure("ani helper: " + l)
             w[7], w[8] = r["acc"][0], r["acc"][1]
             w[9], w[10] = r["v"].split(",")
+        elif w[0] == "sia":
+            if "vals" in r:
+                w[5], w[6], w[7] = r["vals"].split(",")
+            else:
+                w[5], w[6], w[7] = "0", "0", "N"     # the call raised (TypeError / ValueError): nothing to paste
+        elif w[0] == "nat" and w[1] in ("ci", "inc-ci"):
+            w[7], w[8] = r.get("alo", "N"), r.get("ahi", "N")
+        elif w[0] == "nat" and w[1] == "probit":
+            if "z" not in r:
+                raise common.ToolFailure("ani helper (native harness missing?): " + l)
+            w[3] = r["z"]
         out.append(" ".join(w))
     return out
 
@@ -264,8 +280,58 @@ def gen_mh(rng):
     return lines
 
 
+def gen_sia(rng):
+    """MinHash.size_is_accurate: sizes around the flip points, every parameter boundary, both branches of
+    set_size_exact_prob (len * (1 - relative_error) integral or not), num sketches, illegal parameters"""
+    lines = []
+    for _ in range(rng.randint(4, 8)):
+        scaled = rng.choice([1, 2, 10, 100, 1000, 1000, 0])
+        thr = {0: 10, 1: 5, 2: 47, 10: 88, 100: 92, 1000: 95}[scaled]
+        length = rng.choice([1, 2, rng.randint(1, 30), rng.randint(max(1, thr - 10), thr + 10), rng.randint(100, 2000)])
+        rel = rng.choice([0.2, 0.2, 0.2, 0.05, 0.5, 0.25, 0.0, 1.0, 0.1, rng.random(), 1.0 + 2.0 ** -52, -0.1])
+        conf = rng.choice([0.95, 0.95, 0.95, 0.5, 0.9, 0.99, 0.0, 1.0, rng.random(), 1.5, -5e-324])
+        lines.append(f"sia {length} {scaled} {bits(rel)} {bits(conf)} ? ? ?")
+    return lines
+
+
+def gen_native(rng):
+    """the native twin next to the Python one, on the same inputs"""
+    lines = []
+    for _ in range(rng.randint(2, 4)):
+        k = rng.choice([7, 21, 31, 51, 100, rng.randint(1, 120)])
+        scaled = rng.choice([1, 10, 100, 1000])
+        a, b = ratio(rng)
+        c = bits(a / b)
+        r = rng.random()
+        if r < 0.06:
+            c = ONE_MINUS
+        elif r < 0.12:
+            c = bits(1 / 10 ** 10)
+        n = rng.choice([b * scaled, b * scaled, rng.randint(1, 50), 10 ** 4, 10 ** 6])
+        conf = rng.choice([0.95, 0.95, 0.5, 0.9, 0.99, rng.uniform(0.05, 0.999)])
+        lines.append(f"c2dci {c} {k} {scaled} {n} {bits(1e-3)} {bits(conf)} ? ?")
+        lines.append(f"nat ani {c} {k}")
+        lines.append(f"nat inc-ani {c} {k}")
+        lines.append(f"nat ci {c} {k} {scaled} {n} {bits(conf)} ? ?")
+        lines.append(f"nat inc-ci {c} {k} {scaled} {n} {bits(conf)} ? ?")
+        if rng.random() < 0.3:
+            lines.append(f"nat ci {c} {k} {scaled} {n} N ? ?")
+        # the helpers, on the mutation rate the point estimate gives (and on tiny / large ones)
+        r1 = rng.choice([1.0 - (a / b) ** (1.0 / k) if 0 < a <= b else rng.random(), rng.random(), 10.0 ** -rng.randint(1, 10), 0.0, 1.0])
+        L = rng.choice([n, n, rng.randint(1, 100), 10 ** 7])
+        lines.append(f"pyvar {L} {k} {bits(r1)}")
+        lines.append(f"nat var {L} {k} {bits(r1)}")
+        lines.append(f"nat q {k} {bits(r1)}")
+        lines.append(f"nat exp {L} {k} {bits(r1)}")
+        lines.append(f"nat exp2 {L} {k} {bits(r1)}")
+        lines.append(f"nat pnc {bits(1.0 - r1)} {k} {scaled} {L}")
+        p = rng.choice([0.5, 0.975, 0.75, 0.995, rng.uniform(0.5, 0.9999), 1.0 - (1.0 - conf) / 2])
+        lines.append(f"nat probit {bits(p)} ?")
+    return lines
+
+
 def gen_case(rng, flavour):
-    g = {"closed": gen_closed, "res": gen_res, "ci": gen_ci, "mh": gen_mh}[flavour]
+    g = {"closed": gen_closed, "res": gen_res, "ci": gen_ci, "mh": gen_mh, "sia": gen_sia, "native": gen_native}[flavour]
     return fill(g(rng))
 
 
@@ -294,6 +360,10 @@ def parse(o):
 
 def f_or_none(s):
     return None if s in (None, "N") else fl(s)
+
+
+def ofl_s(s):
+    return "None" if s == "N" else repr(fl(s))
 
 
 def oracle(case, impl):
@@ -417,6 +487,84 @@ def oracle(case, impl):
                     bad.append((idx, f"C17:at-one:mh-{kind}", f"identical sketches, ani={ani!r}"))
                 if cm == 0 and ani != 0.0:
                     bad.append((idx, f"C17:at-zero:mh-{kind}", f"disjoint sketches, ani={ani!r}"))
+        elif op == "sia":
+            length, scaled, rel, conf = int(w[1]), int(w[2]), fl(w[3]), fl(w[4])
+            if scaled == 0:
+                if o != "err TypeError":
+                    bad.append((idx, "C17:sia:num-sketch-answered", f"{l[:60]} -> {o[:60]}"))
+                continue
+            legal = 0 <= rel <= 1 and 0 <= conf <= 1
+            if not legal:
+                if o != "err ValueError":
+                    bad.append((idx, "C17:sia:illegal-parameters-answered", f"{l[:60]} -> {o[:60]}"))
+                continue
+            if not o.startswith("ok "):
+                bad.append((idx, "C17:sia:refused", f"{l[:60]} -> {o[:60]}"))
+                continue
+            calls = [c.split(":")[0] for c in r["calls"].split(",")]
+            if calls[:2] != ["cdf", "cdf"] or calls[2:] not in ([], ["pmf"]):
+                bad.append((idx, "C17:sia:formula", f"size_is_accurate no longer evaluates the exact binomial probability: {r['calls'][:80]}"))
+            if int(r["n"]) != length * scaled or fl(r["p"]) != 1 / scaled:
+                bad.append((idx, "C17:sia:binomial-parameters", f"n={r['n']} p={fl(r['p'])!r} for {length} hashes at scaled {scaled}"))
+            prob = fl(r["prob"])
+            if (r["acc"] == "1") != (prob >= conf):
+                bad.append((idx, "C17:sia:decision", f"probability {prob!r} vs confidence {conf!r} but size_is_accurate = {r['acc']}"))
+            if not (-1e-9 <= prob <= 1 + 1e-9):
+                bad.append((idx, "C17:sia:probability-range", f"probability {prob!r}"))
+        elif op == "nat":
+            which = w[1]
+            if o == "no-native-harness":
+                bad.append((idx, "C17:native-harness-missing", "rust-harness binary not built"))
+                continue
+            # the Python twin on the same input: the closest earlier op of the case
+            def earlier(pred):
+                for j in range(idx - 1, -1, -1):
+                    if pred(case[j].split()):
+                        return parse(impl[j]), impl[j]
+                return None, None
+            if which in ("ani", "inc-ani"):
+                py, pyo = earlier(lambda x: x[0] in ("c2d", "c2dci") and x[1:3] == w[2:4])
+                c = fl(w[2])
+                if py is not None and 0 <= c <= 1 and "ani" in py and py["ani"] != "N" and py["ani"] != r.get("ani"):
+                    bad.append((idx, "C17:native-vs-python:point-estimate",
+                                f"ani_from_containment({c!r}, {w[3]}) = {f_or_none(r.get('ani'))!r} but Python reports {fl(py['ani'])!r}"))
+            elif which in ("ci", "inc-ci"):
+                c = fl(w[2])
+                py, pyo = earlier(lambda x: x[0] == "c2dci" and x[1:5] == w[2:6] and (w[6] == "N" or x[6] == w[6]))
+                lib, libo = earlier(lambda x: x[0] == "nat" and x[1] == "ci" and x[2:7] == w[2:7]) if which == "inc-ci" else (None, None)
+                if which == "inc-ci" and libo is not None and libo != o:
+                    bad.append((idx, "C17:native:included-copy-differs", f"{libo} vs {o}"))
+                if not o.startswith("ok ") or not (0 < c < 1):
+                    continue
+                alo, ahi = fl(r["alo"]), fl(r["ahi"])
+                if alo == 1.0 or ahi == 1.0:
+                    # the root search lives in [1e-7, 0.9999999]: a bound of exactly 1.0 can only be `unwrap_or_default()`
+                    pyw = "" if py is None else f"; Python for the same input: lo={py.get('lo')} hi={py.get('hi')}" + \
+                        (" (withheld)" if py.get("lo") == "N" else "")
+                    bad.append((idx, "C17:native-ci:unwrap_or_default",
+                                f"ani_ci_from_containment({c!r}, k={w[3]}, scaled={w[4]}, n_unique_kmers={w[5]}, confidence={ofl_s(w[6])}) "
+                                f"= ({alo!r}, {ahi!r}){pyw}"))
+                    continue
+                if py is not None and pyo.startswith("ok ") and py.get("alo", "N") == "N" and w[6] != "N":
+                    # the Python twin withholds (brentq raised: "Do your sketches contain enough hashes?"); the native one swallows
+                    # the varN<0 error (`var_n_mutated(..).unwrap_or(0.0)`) and answers
+                    bad.append((idx, "C17:native-ci:answers-where-python-withholds",
+                                f"ani_ci_from_containment({c!r}, k={w[3]}, scaled={w[4]}, n_unique_kmers={w[5]}, confidence={ofl_s(w[6])}) "
+                                f"= ({alo!r}, {ahi!r}) but the Python twin reports no interval"))
+                    continue
+                if py is not None and py.get("alo", "N") != "N" and w[6] != "N":
+                    # two different root finders with different stopping rules (roots' SimpleConvergency(eps=1e-15) also stops on
+                    # |f| < eps, which for containment ~1e-7 leaves the root 2e-4 off; scipy brentq: xtol=2e-12): 1e-3 absolute
+                    palo, pahi = fl(py["alo"]), fl(py["ahi"])
+                    if abs(palo - alo) > CI_TOL or abs(pahi - ahi) > CI_TOL:
+                        bad.append((idx, "C17:native-vs-python:ci", f"native ({alo!r}, {ahi!r}) vs Python ({palo!r}, {pahi!r}) for {l[:70]}"))
+                if not (0.0 <= alo <= ahi + 1e-9 and ahi <= 1.0):
+                    bad.append((idx, "C17:native-ci:not-ordered", f"({alo!r}, {ahi!r}) for {l[:70]}"))
+            elif which == "probit":
+                p, z = fl(w[2]), f_or_none(r.get("z"))
+                if z is not None and ((p == 0.5 and z != 0.0) or (p > 0.5 and not z > 0.0)):
+                    bad.append((idx, "C17:native-probit", f"probit({p!r}) = {z!r}"))
+                mono.setdefault(("probit", 0), []).append((p, z, idx))
     for (kind, k), pts in mono.items():
         pts.sort()
         for (x1, a1, i1), (x2, a2, i2) in zip(pts, pts[1:]):
